@@ -30,6 +30,79 @@ unsafe impl GlobalAlloc for Counting {
 #[global_allocator]
 static A: Counting = Counting;
 
+/// CPUID faulting: make `cpuid` trap and emulate it with the AVX2 / SSE4.1 bits masked, so that
+/// `is_x86_feature_detected!` (std's run-time detection) sees an SSE-only or a no-SIMD CPU.
+#[cfg(all(target_arch = "x86_64", target_os = "linux"))]
+mod cpumask {
+    use std::sync::atomic::{AtomicU32, Ordering};
+    pub static MASK_LEAF1_ECX: AtomicU32 = AtomicU32::new(0);
+    pub static MASK_LEAF7_EBX: AtomicU32 = AtomicU32::new(0);
+    const ARCH_GET_CPUID: libc::c_long = 0x1011;
+    const ARCH_SET_CPUID: libc::c_long = 0x1012;
+
+    unsafe fn set_cpuid(on: libc::c_long) -> libc::c_long {
+        libc::syscall(libc::SYS_arch_prctl, ARCH_SET_CPUID, on)
+    }
+
+    extern "C" fn handler(_sig: libc::c_int, _info: *mut libc::siginfo_t, ctx: *mut libc::c_void) {
+        unsafe {
+            let uc = ctx as *mut libc::ucontext_t;
+            let gregs = &mut (*uc).uc_mcontext.gregs;
+            let rip = gregs[libc::REG_RIP as usize] as *const u8;
+            if *rip == 0x0f && *rip.add(1) == 0xa2 {
+                let leaf = gregs[libc::REG_RAX as usize] as u32;
+                let sub = gregs[libc::REG_RCX as usize] as u32;
+                set_cpuid(1);
+                let r = core::arch::x86_64::__cpuid_count(leaf, sub);
+                set_cpuid(0);
+                let mut ebx = r.ebx;
+                let mut ecx = r.ecx;
+                if leaf == 1 {
+                    ecx &= !MASK_LEAF1_ECX.load(Ordering::Relaxed);
+                }
+                if leaf == 7 && sub == 0 {
+                    ebx &= !MASK_LEAF7_EBX.load(Ordering::Relaxed);
+                }
+                gregs[libc::REG_RAX as usize] = r.eax as i64;
+                gregs[libc::REG_RBX as usize] = ebx as i64;
+                gregs[libc::REG_RCX as usize] = ecx as i64;
+                gregs[libc::REG_RDX as usize] = r.edx as i64;
+                gregs[libc::REG_RIP as usize] += 2;
+            } else {
+                // a genuine fault: restore default action and return to re-fault
+                libc::signal(libc::SIGSEGV, libc::SIG_DFL);
+            }
+        }
+    }
+
+    /// returns false when the kernel/CPU does not support CPUID faulting
+    pub fn install(kind: &str) -> bool {
+        unsafe {
+            if libc::syscall(libc::SYS_arch_prctl, ARCH_GET_CPUID, 0) < 0 {
+                return false;
+            }
+            match kind {
+                "none" => {
+                    MASK_LEAF1_ECX.store(1 << 19, Ordering::Relaxed);
+                    MASK_LEAF7_EBX.store(1 << 5, Ordering::Relaxed);
+                }
+                "sse41" => {
+                    MASK_LEAF7_EBX.store(1 << 5, Ordering::Relaxed);
+                }
+                _ => {}
+            }
+            let mut sa: libc::sigaction = core::mem::zeroed();
+            sa.sa_sigaction = handler as *const () as usize;
+            sa.sa_flags = libc::SA_SIGINFO | libc::SA_NODEFER;
+            libc::sigemptyset(&mut sa.sa_mask);
+            if libc::sigaction(libc::SIGSEGV, &sa, core::ptr::null_mut()) != 0 {
+                return false;
+            }
+            set_cpuid(0) == 0
+        }
+    }
+}
+
 fn detect() -> Cpu {
     #[cfg(target_arch = "x86_64")]
     {
@@ -75,6 +148,20 @@ fn main() {
             alloc_mode = true;
         } else if a == "--info" {
             want_info = true;
+        } else if let Some(kind) = a.strip_prefix("--cpu=") {
+            #[cfg(all(target_arch = "x86_64", target_os = "linux"))]
+            {
+                if !cpumask::install(kind) {
+                    println!("cpu-mask-unavailable");
+                    return;
+                }
+            }
+            #[cfg(not(all(target_arch = "x86_64", target_os = "linux")))]
+            {
+                let _ = kind;
+                println!("cpu-mask-unavailable");
+                return;
+            }
         } else if a.starts_with("--") {
             eprintln!("unknown flag {a}");
             std::process::exit(2);
